@@ -241,6 +241,8 @@ def run_plans_scaled(prop, plans, scale, seed, tag, first_id=40_000_000, jobs=12
 def merge_results(res, res2):
     res.fails += res2.fails
     res.cover.update(res2.cover)
+    for t, rs in res2.cover_runs.items():
+        res.cover_runs[t] |= rs
     res.runs += res2.runs
     res.states += res2.states
     res.transitions += res2.transitions
@@ -365,7 +367,14 @@ def finish_trace_check(prop, tier, seed, res, t0, total_cases, extra_cov=None, e
         print(f"VIOLATION property={prop} replay={path}")
         log("  " + msg)
     tag = NONTRIVIAL.get(prop)
-    nontrivial = min(res.runs, sum(res.cover.get(t, 0) for t in tag[0].split("+"))) if tag else res.runs
+    # distinct runs that carry (one of) the tag(s) - a tag may be printed several times per run
+    if tag:
+        runs_with = set()
+        for t in tag[0].split("+"):
+            runs_with |= res.cover_runs.get(t, set())
+        nontrivial = len(runs_with) if runs_with else min(res.runs, sum(res.cover.get(t, 0) for t in tag[0].split("+")))
+    else:
+        nontrivial = res.runs
     cov = {
         "evaluations": res.runs,
         "distinct_nontrivial": nontrivial,
